@@ -10,7 +10,6 @@ history is replayable and the `while _id in self.db` loop of create_id can be dr
 collision); the ids the real `_create_id` then computes are recorded and handed to the model as the
 candidate stream.  Presented NameIDs refer to earlier results of the same history ("ref"); the
 resolved value is recorded with the step."""
-import copy
 import hashlib
 import types
 import urllib.parse
@@ -36,8 +35,11 @@ TRUSTED = [
     "IdentDB on a plain dict (shelve/memcache/mongo back ends are not exercised)",
 ]
 ASSUMPTIONS = [
-    "user names are disjoint from issued identifier values (stated in the property); presented identifier values are not user names",
-    "a requester (sp_name_qualifier) is present in every issuing call; operations without one are run for correspondence only",
+    "user names are disjoint from issued identifier values (stated in the property); identifier values presented in "
+    "requests are non-empty and are not user names; operations name users of the history's user list "
+    "(anything else is run for correspondence only: specTrace stops judging at the first out-of-scope operation)",
+    "e-mail-format identifiers: id@domain is not yet a key of the store (create_id's loop tests the bare id only)",
+    "name-id-mapping requests carry a Format",
     "one Eptid instance serves one provider (idp and secret fixed), called as get(idp, sp, user)",
     "decode() on text that is not an output of code(): index fields are ASCII digit strings or clearly non-numeric, "
     "percent-escapes decode to valid UTF-8",
@@ -313,7 +315,7 @@ def gen_cases(rng, tier):
         yield gen_eptid(rng, collide=True)
     for _ in range(20 if big else 4):
         yield scenario_reorder(rng)
-    for i in range(6000 if big else 700):
+    for i in range(3500 if big else 700):
         fl = ("pt", "pt", "mixed", "mixed", "wild")[i % 5]
         yield gen_hist(rng, tier, fl)
 
@@ -488,7 +490,19 @@ def _run_hist(case):
                     raise AssertionError("unknown op kind " + k)
             except legit as e:
                 res = {"r": "refused", "e": type(e).__name__}
+            except (AttributeError, TypeError) as e:
+                # not an answer and not a refusal: the call broke down inside pysaml2 (seen only with a
+                # store corrupted by an earlier step).  The history ends here; the driver reports it.
+                steps.append({"res": {"r": "crash", "e": type(e).__name__}, "cands": list(cands), "delta": [], "crash": True})
+                snaps.append(authn_snap)
+                break
             results.append(res_nid if k in ISSUE else None)
+            if not all(isinstance(a, str) and isinstance(b, str) for a, b in db.items()):
+                # the store no longer maps strings to strings (e.g. a None key): outside anything the
+                # property or the model can talk about; the history ends here and the driver reports it
+                steps.append({"res": res, "cands": list(cands), "delta": [], "corrupt": True})
+                snaps.append(authn_snap)
+                break
             now = dict(db)
             delta = sorted([[kk, now.get(kk)] for kk in set(prev) | set(now) if prev.get(kk) != now.get(kk)],
                            key=lambda x: x[0])
@@ -527,7 +541,7 @@ def compare(case, impl, model):
             return _canon_res(impl) == _canon_res(model)
         return impl == model
     ms = (model or {}).get("steps")
-    if ms is None or len(ms) != len(impl["steps"]):
+    if ms is None or len(ms) != len(impl["steps"]) or len(ms) != len(case["ops"]):
         return False
     for a, b in zip(impl["steps"], ms):
         if _canon_res(a["res"]) != _canon_res(b["res"]):
